@@ -100,8 +100,13 @@ func (s *Session) foreignBackup() error {
 // restoreAndCheck loads the backup location into an empty store and compares every read API of
 // the restored hub with the answers the specification logged when the last backup ran.
 func (s *Session) restoreAndCheck(obs *Obs) error {
-	dir := s.W.Dir + "_restored_" + s.Tag
 	defer os.RemoveAll(s.BackupDir())
+	return s.restoreAndCompare(obs)
+}
+
+// restoreAndCompare leaves the backup location as it is.
+func (s *Session) restoreAndCompare(obs *Obs) error {
+	dir := s.W.Dir + "_restored_" + s.Tag
 	_ = os.RemoveAll(dir)
 	db, err := badger.Open(badger.DefaultOptions(dir).WithLogger(nil))
 	if err != nil {
@@ -126,7 +131,7 @@ func (s *Session) restoreAndCheck(obs *Obs) error {
 		return err
 	}
 	defer w2.Destroy()
-	s2 := &Session{W: w2, H: s.H, Tag: s.Tag, Table: s.Table, Ad: s.Ad, clock: obs.Clock,
+	s2 := &Session{W: w2, H: s.H, Tag: s.Tag, Table: s.Table, Ad: s.Ad, clock: obs.Clock, NoAt: s.NoAt,
 		after: s.after, commit: s.commit, ids: s.ids, tokens: map[int]uint64{}}
 	if w2.EntP != s.W.EntP || w2.PredP != s.W.PredP || w2.PropP != s.W.PropP {
 		s.diverge("restore", nil, "namespace prefixes of the source hub", []string{w2.EntP, w2.PredP, w2.PropP}, "")
